@@ -7,7 +7,7 @@ use vharness::choose::Chooser;
 use vharness::refpdf::{self, FileSpec, Layout, Style};
 use vharness::{cmp, strict, util, Mode, Run};
 
-const N_DOCS: usize = 16;
+const N_DOCS: usize = 19;
 const ENTRY: &str = "entry points disagree: ";
 
 #[derive(Debug, Clone, PartialEq)]
@@ -176,7 +176,7 @@ fn main() {
     }
     run.rule(
         "abstract documents rendered by the independent reference writer through a choice recorder: the all-default file, every \
-         single deviation at every choice point (instance level), and pairs of deviations at class level; every file is first \
+         single deviation at every choice point (instance level; for the 300-object document the quick tier takes the first 40 and last 60 points), and pairs of deviations at class level; every file is first \
          accepted by the strict reader (writer self-check), then loaded by lopdf (load_mem) and compared with the abstract document, and loaded again through load_from with \
          1-byte and 4093-byte reads, IncrementalDocument::load_from / load_mem and (files with <= 1 deviation) Document::load, \
          load_filtered with a keep-all filter and IncrementalDocument::load from a scratch file, all of which must equal load_mem exactly; \
@@ -211,6 +211,12 @@ fn main() {
                     jobs.push((*i, o));
                 }
             }
+            if doc == 16 && !run.thorough {
+                // the 300-string document: instance-level deviations only at the first 40 and last 60 choice points
+                // (header, first members, container, cross-reference data); all points in the thorough tier
+                let np = points.len();
+                jobs.retain(|(i, _)| *i < 40 || *i + 60 >= np);
+            }
             if doc == 1 && style == 1 {
                 run.sample(json!({"doc": doc, "style": "stream", "choice_points": points.len(), "single_deviations": jobs.len(),
                     "example_point": [points[points.len() / 2].0, points[points.len() / 2].1, points[points.len() / 2].2]}));
@@ -244,7 +250,9 @@ fn main() {
                         for ob in 1..cls[b].1 {
                             pair_idx += 1;
                             // quick tier: the residue class of pairs selected by the seed (1/4 of them)
-                            if run.thorough || pair_idx % 4 == run.seed % 4 {
+                            // (300-object document, quick tier: pairs that involve a stream filter class only)
+                            let big_ok = doc != 16 || run.thorough || cls[a].0.ends_with(".filter") || cls[b].0.ends_with(".filter");
+                            if big_ok && (run.thorough || pair_idx % 4 == run.seed % 4) {
                                 cjobs.push(vec![(cls[a].0, oa), (cls[b].0, ob)]);
                             }
                         }
